@@ -62,8 +62,11 @@ class Ctx:
         self.pid, self.tier, self.seed = pid, tier, int(seed)
         self.rng = random.Random(self.seed * 1000003 + int(pid[1:]))
         self.t0 = time.time()
-        self.rundir = os.path.join(BUILD, "run", pid)
+        # one scratch directory per process, so two runs of the same property never share case files
+        self.rundir = os.path.join(BUILD, "run", "%s_%d" % (pid, os.getpid()))
         os.makedirs(self.rundir, exist_ok=True)
+        import atexit, shutil
+        atexit.register(lambda d=self.rundir: shutil.rmtree(d, ignore_errors=True))
         os.makedirs(os.path.join(VERIF, "evidence"), exist_ok=True)
         os.makedirs(os.path.join(VERIF, "replays"), exist_ok=True)
         self.broken = []        # obligations / correspondences that no longer check: (name, detail)
